@@ -70,7 +70,7 @@ func TestVerif_C17_gateway(t *testing.T) {
 			col.Note("exclusion for " + f + " switched off in the harness (defect repaired)")
 		}
 	}
-	verifkit.RapidSetup(400, 4000)
+	verifkit.RapidSetup(400, 10000)
 	rapid.Check(t, func(rt *rapid.T) {
 		c := c17GenCase().Draw(rt, "case")
 		for name := range c17LastExcluded {
